@@ -184,6 +184,46 @@ fn cli_roundtrips(ctx: &Ctx) {
     });
 }
 
+/// Round trips through the real binary of plaintexts whose content is special (zero / 0xff runs aligned
+/// with the chunk size), via -o files and via stdout.
+fn cli_content(ctx: &Ctx) {
+    use crate::cli::{keyring_text, Cmd, Exit, Ident, WorkDir};
+    let mut rng = Rng::fork(ctx.seed, "C01-cli-content");
+    let alice = Ident::new("alice", "apw", &mut rng);
+    let bob = Ident::new("bob", "bpw", &mut rng);
+    let fams = crate::util::content_families(&mut rng);
+    par_for(fams.len() * 2, crate::util::ncpu(), |j| {
+        let (what, pt) = &fams[j / 2];
+        let files = j % 2 == 0;
+        let wd = WorkDir::new("c01c");
+        wd.write("kr.txt", keyring_text(&[(&alice, true), (&bob, true)]).as_bytes());
+        wd.write("plain.bin", pt);
+        let (ct, dec, ok);
+        if files {
+            let e = Cmd::new(&wd.path, &["encrypt", "plain.bin", "-t", "bob", "-f", "alice", "-o", "c.ktl", "-k", "kr.txt", "--env-pass"]).pass("apw").run();
+            let d = Cmd::new(&wd.path, &["decrypt", "c.ktl", "-t", "bob", "-o", "p.out", "-k", "kr.txt", "--env-pass"]).pass("bpw").run();
+            ct = std::fs::read(wd.file("c.ktl")).unwrap_or_default();
+            dec = std::fs::read(wd.file("p.out")).unwrap_or_default();
+            ok = e.exit == Exit::Code(0) && d.exit == Exit::Code(0);
+        } else {
+            let e = Cmd::new(&wd.path, &["encrypt", "plain.bin", "-t", "bob", "-f", "alice", "-k", "kr.txt", "--env-pass"]).pass("apw").run();
+            wd.write("c.ktl", &e.stdout);
+            let d = Cmd::new(&wd.path, &["decrypt", "c.ktl", "-t", "bob", "-k", "kr.txt", "--env-pass"]).pass("bpw").run();
+            ct = e.stdout.clone();
+            dec = d.stdout.clone();
+            ok = e.exit == Exit::Code(0) && d.exit == Exit::Code(0);
+        }
+        ctx.eval();
+        let refok = matches!(refspec::decode_key_file(&ct, &bob.sk, &bob.pk), Ok(x) if x.body.complete() && &x.body.plaintext() == pt && x.sender == alice.pk);
+        if ok && &dec == pt && refok {
+            ctx.seen("cli round trip ok: special plaintext content");
+            ctx.distinct(&format!("cli|content|{}|{}", what, files));
+        } else {
+            ctx.violation("C01:cli:round-trip-of-special-content-fails", json!({"content": what, "wiring": if files { "-o files" } else { "stdout" }, "commands_succeeded": ok, "plaintext_len": pt.len(), "decrypted_len": dec.len(), "ciphertext_conforms": refok}));
+        }
+    });
+}
+
 /// Keyrings whose names are near twins of each other (case, prefix, inner space, Unicode
 /// composition): `-f X -t Y` must use exactly the keys stored under X and Y, whichever order the
 /// entries are listed in. Every key has the same password so a wrong pick still unlocks.
@@ -345,8 +385,10 @@ pub fn run(ctx: &Ctx) {
     if !crate::lib_only() {
         cli_roundtrips(ctx);
         cli_name_selection(ctx);
+        cli_content(ctx);
     }
     ctx.require("cli: near-twin names select exactly the named keys", 20);
+    ctx.require("cli round trip ok: special plaintext content", 16);
     ctx.require("cli round trip ok: files, output paths that already hold longer content", 4);
     ctx.require("cli round trip ok: pipes", 4);
     ctx.require("cli round trip ok: files, sender and recipient are the same key", 2);
